@@ -34,6 +34,12 @@ pub fn make_error<I>(input: I, kind: ErrorKind) -> (e: Error<I>)
     ensures e.input == input, e.code == kind,
 { Error { input, code: kind } }
 
+pub trait ToUsizeSpec: Sized { spec fn as_int(self) -> int; }
+impl ToUsizeSpec for u8 { open spec fn as_int(self) -> int { self as int } }
+impl ToUsizeSpec for u16 { open spec fn as_int(self) -> int { self as int } }
+impl ToUsizeSpec for u32 { open spec fn as_int(self) -> int { self as int } }
+impl ToUsizeSpec for usize { open spec fn as_int(self) -> int { self as int } }
+
 // nom::bytes::streaming::take(count): streaming take over &[u8].
 // ASSUMED here; OBLIGATION of Kani harness shim_take (real nom, input <= 12 bytes, count full-domain).
 pub open spec fn take_post(count: int, i: Seq<u8>, r: IResult<&[u8], &[u8]>) -> bool {
@@ -48,8 +54,62 @@ pub open spec fn take_post(count: int, i: Seq<u8>, r: IResult<&[u8], &[u8]>) -> 
 }
 
 #[verifier::external_body]
-pub fn take<'a>(count: usize) -> (f: impl Fn(&'a [u8]) -> IResult<&'a [u8], &'a [u8]>)
+pub fn take<'a, C: ToUsizeSpec>(count: C) -> (f: impl Fn(&'a [u8]) -> IResult<&'a [u8], &'a [u8]>)
     ensures
         forall|i: &'a [u8]| #[trigger] f.requires((i,)),
-        forall|i: &'a [u8], r: IResult<&'a [u8], &'a [u8]>| #[trigger] f.ensures((i,), r) ==> take_post(count as int, i@, r),
+        forall|i: &'a [u8], r: IResult<&'a [u8], &'a [u8]>| #[trigger] f.ensures((i,), r) ==> take_post(count.as_int(), i@, r),
+{ |i: &'a [u8]| -> IResult<&'a [u8], &'a [u8]> { unimplemented!() } }
+
+// nom::number::streaming::be_u8 / be_u16 / be_u24 / be_u32 over &[u8].
+// ASSUMED here; OBLIGATIONS of Kani harnesses shim_be_u8 / shim_be_u16 / shim_be_u24 / shim_be_u32 (full domain).
+pub open spec fn be_val(i: Seq<u8>, w: int) -> int
+    decreases w
+{
+    if w <= 0 { 0 } else { be_val(i, w - 1) * 256 + (i[w - 1] as int) }
+}
+pub open spec fn be_post<T>(w: int, i: Seq<u8>, r: IResult<&[u8], T>, val: spec_fn(T) -> int) -> bool {
+    if i.len() >= w {
+        match r {
+            Ok((rem, v)) => rem@ =~= i.subrange(w, i.len() as int) && val(v) == be_val(i, w),
+            Err(_) => false,
+        }
+    } else {
+        r == Err::<(&[u8], T), Err<Error<&[u8]>>>(Err::Incomplete(Needed::Size((w - i.len()) as usize)))
+    }
+}
+#[verifier::external_body]
+pub fn be_u8<'a>(i: &'a [u8]) -> (r: IResult<&'a [u8], u8>)
+    ensures be_post(1, i@, r, |v: u8| v as int),
+{ unimplemented!() }
+#[verifier::external_body]
+pub fn be_u16<'a>(i: &'a [u8]) -> (r: IResult<&'a [u8], u16>)
+    ensures be_post(2, i@, r, |v: u16| v as int),
+{ unimplemented!() }
+#[verifier::external_body]
+pub fn be_u24<'a>(i: &'a [u8]) -> (r: IResult<&'a [u8], u32>)
+    ensures be_post(3, i@, r, |v: u32| v as int),
+{ unimplemented!() }
+#[verifier::external_body]
+pub fn be_u32<'a>(i: &'a [u8]) -> (r: IResult<&'a [u8], u32>)
+    ensures be_post(4, i@, r, |v: u32| v as int),
+{ unimplemented!() }
+
+// nom::multi::length_data(f): run f for the length, then streaming-take that many bytes.
+// ASSUMED here; OBLIGATION of Kani harnesses shim_length_data_u8 / _u16 / _u24 (real nom, bounded input).
+pub open spec fn length_data_post<N: ToUsizeSpec>(r0: IResult<&[u8], N>, r: IResult<&[u8], &[u8]>) -> bool {
+    match r0 {
+        Ok((rest, n)) => take_post(n.as_int(), rest@, r),
+        Err(Err::Incomplete(nd)) => r == Err::<(&[u8], &[u8]), Err<Error<&[u8]>>>(Err::Incomplete(nd)),
+        Err(Err::Error(e)) => r == Err::<(&[u8], &[u8]), Err<Error<&[u8]>>>(Err::Error(e)),
+        Err(Err::Failure(e)) => r == Err::<(&[u8], &[u8]), Err<Error<&[u8]>>>(Err::Failure(e)),
+    }
+}
+
+#[verifier::external_body]
+pub fn length_data<'a, N: ToUsizeSpec, F: Fn(&'a [u8]) -> IResult<&'a [u8], N>>(f: F) -> (g: impl Fn(&'a [u8]) -> IResult<&'a [u8], &'a [u8]>)
+    requires forall|i: &'a [u8]| #[trigger] f.requires((i,)),
+    ensures
+        forall|i: &'a [u8]| #[trigger] g.requires((i,)),
+        forall|i: &'a [u8], r: IResult<&'a [u8], &'a [u8]>| #[trigger] g.ensures((i,), r) ==>
+            exists|r0: IResult<&'a [u8], N>| #[trigger] f.ensures((i,), r0) && length_data_post(r0, r),
 { |i: &'a [u8]| -> IResult<&'a [u8], &'a [u8]> { unimplemented!() } }
